@@ -213,9 +213,9 @@ def solve_call(prog, Model, n, rng, rep, txt):
     rep.dist['solve:' + tag.split(':')[0]] += 1
 
 
-def run(ctx, rep):
+def _work(ctx, rep):
     rng = ctx.sub_rng('programs')
-    nprog = (500 if ctx.tier == 'quick' else 6000) * ctx.scale
+    nprog = (500 if ctx.tier == 'quick' else 30000) * ctx.scale // ctx.parts
     lines, expect = [], []
     made = 0
     while made < nprog:
@@ -248,6 +248,11 @@ def run(ctx, rep):
                 rep.disagree('default range: model != impl', info, out, f'iter_periods={dr}')
             elif kind == 'accepted' and not set(changed) <= set(model_allowed):
                 rep.disagree('write set: impl changed a cell outside the model write set', info, out, f'changed={changed}')
+
+
+def run(ctx, rep):
+    import framework
+    framework.parallel(_work, ctx, rep, parts=(1 if ctx.tier == 'quick' else ctx.workers))
 
 
 def replay(ctx, rep, info):
